@@ -37,6 +37,31 @@ Qed.
 Theorem run_independent_of_history : forall P h x, run_after fixedH P h x = run_from_initial fixedH P x.
 Proof. intros. unfold run_after, run_from_initial. apply result_reads_only. apply after_read_eq. Qed.
 
+(* whole sessions: the list of results of any sequence of simulations of one compiled scenario, started after any
+   earlier history, is the list of results each simulation gives on a freshly compiled scenario *)
+Fixpoint session (V:hvariant) (P:prog) (s:pstate) (xs:list (scene * opts)) : list result :=
+  match xs with
+  | [] => []
+  | x :: xs' => snd (run_one V P s x) :: session V P (fst (run_one V P s x)) xs'
+  end.
+
+Lemma session_read_eq : forall P xs s, read_eq s (init P) ->
+  session fixedH P s xs = map (run_from_initial fixedH P) xs.
+Proof.
+  intros P xs. induction xs as [|x xs IH]; intros s Hs; simpl; [reflexivity|].
+  f_equal.
+  - unfold run_from_initial. apply result_reads_only. exact Hs.
+  - apply IH. apply finish_restores_read_fields. exact Hs.
+Qed.
+
+Theorem session_independent_of_history : forall P h xs,
+  session fixedH P (after fixedH P h) xs = map (run_from_initial fixedH P) xs.
+Proof. intros. apply session_read_eq. apply after_read_eq. Qed.
+
+Theorem session_order_irrelevant : forall P h1 h2 xs,
+  session fixedH P (after fixedH P h1) xs = session fixedH P (after fixedH P h2) xs.
+Proof. intros. now rewrite !session_independent_of_history. Qed.
+
 (* ---- witnesses (each is a history the harness replays on the real code) *)
 Definition sc0 := {| sc_monitors := [] |}.
 Definition mk (ts:Q) (mx:nat) (g:bool) (subs:list nat) := {| o_timestep := ts; o_max := mx; o_guards := g; o_subs := subs; o_ovr := [] |}.
